@@ -241,9 +241,9 @@ def intercalate (sep : Bytes) : List Bytes → Bytes
 mutual
 /-- `json.Marshal`. -/
 def encode [NumOps N] : Val N → Bytes
-  | .null => b "null"
-  | .bool true => b "true"
-  | .bool false => b "false"
+  | .null => [0x6E, 0x75, 0x6C, 0x6C]
+  | .bool true => [0x74, 0x72, 0x75, 0x65]
+  | .bool false => [0x66, 0x61, 0x6C, 0x73, 0x65]
   | .num n => NumOps.format n
   | .str s => encodeString s
   | .arr xs => 0x5B :: intercalate [0x2C] (encodeList xs) ++ [0x5D]
